@@ -173,11 +173,18 @@ def run_task(m, task):
     n_ep = len({t for _, st in task["meas"] for t in st})
     rec = Recorder(budget_adv=n_rows + 3, budget_meas=n_ep + 3)
     start = task["start"]
-    pva = make_pva(m, start, rng, task.get("vd0", 0.0))
+    allst = [start] + list(task["imu"]) + [t for _, st in task["meas"] for t in st]
+    intidx = bool(task.get("intidx")) and all(float(t).is_integer() for t in allst)     # integer-typed time stamps everywhere
+    pva = make_pva(m, int(start) if intidx else start, rng, task.get("vd0", 0.0))
     gm, am = make_models(m, task["models"], rng)
     meas_objs = []
     for sidx, (cls_name, stamps) in enumerate(task["meas"]):
-        meas_objs.append(_wrap_measurement(m, cls_name, make_meas_data(m, cls_name, stamps, pva, rng, far=bool(task.get("far"))), sidx, rec, rng))
+        data = make_meas_data(m, cls_name, stamps, pva, rng, far=bool(task.get("far")))
+        if task.get("shuffle") and len(data) > 1:
+            data = data.iloc[rng.permutation(len(data))]             # the rows of a measurement table need not be sorted by time
+        if intidx:
+            data.index = pd.Index(np.asarray(data.index).astype(np.int64), name='time')
+        meas_objs.append(_wrap_measurement(m, cls_name, data, sidx, rec, rng))
     if not meas_objs and task["form"] == "none":
         meas_arg = None
     else:
@@ -270,14 +277,15 @@ def run_task(m, task):
     rec.state = state
     try:
         if kind == "fb":
-            incs = make_increments(m, start, task["imu"], rng)
+            incs = make_increments(m, start, task["imu"], rng,
+                                   index=pd.Index(np.asarray(task["imu"]).astype(np.int64), name='time') if intidx else None)
             res = filters.run_feedback_filter(pva, 1.0, 0.1, 0.1, 1.0, incs, gm, am, meas_arg,
                                               time_step=task["step"], with_altitude=task["alt"])
         else:
             times = np.asarray(task["imu"], dtype=float)
             n = len(times)
             traj = pd.DataFrame(np.tile(pva.values, (n, 1)) + 1e-6 * rng.randn(n, 9) * [1, 1, 1e5, 1e4, 1e4, 1e4, 1e3, 1e3, 1e3],
-                                index=pd.Index(times, name='time'), columns=list(pva.index))
+                                index=pd.Index(times.astype(np.int64) if intidx else times, name='time'), columns=list(pva.index))
             if not task["alt"]:
                 traj['VD'] = task.get("vd0", 0.0) * 1.0
             nominal = traj + 1e-7
